@@ -28,7 +28,7 @@ ASSUMPTIONS = ['version comparison is a total order; the comparison operators of
                'it (replay uses real verspec objects)']
 EXHAUSTIVE = True
 FNS = ['s_simplify', 'm_merge', 'c_conflicts']
-FUNCTIONS_PC = ['bfg9000.builtins.pkg_config.PkgConfigWriter._write_field/_write_value', 'bfg9000.shell.syntax.Writer.write/write_each', 'posix.quote_info']
+FUNCTIONS_PC = ['bfg9000.builtins.pkg_config.finalize_pkg_config (auto_fill)', 'bfg9000.builtins.pkg_config.PkgConfigWriter._write_field/_write_value', 'bfg9000.shell.syntax.Writer.write/write_each', 'posix.quote_info']
 
 
 def bounds(tier):
@@ -56,6 +56,8 @@ def obligations(tier, kf):
     obs.append(Ob('s_simplify', {'K': 3, 'F': 1, 'G': -1}, 600).mutant('simplify_ignores_ne'))
     obs.append(Ob('m_merge', {'K': 3, 'F': 1, 'G': -1}, 600).mutant('simplify_ignores_ne'))
     obs.append(Ob('s_simplify', {'K': 2, 'F': -1, 'G': -1}, 300).mutant('simplify_max_for_lt'))
+    af = Ob('a_autofill', {'K': 1}, 600, desc='auto_fill shapes (2 x 2 x 3 x 3 x on/off)')
+    obs += [af, af.twin(), af.mutant('autofill_overrides_empty')]
     excl = pc_probe()
     for n in range(0, (1 if quick else 3) + 1):
         obs.append(Ob('q_define', dict(kf, N=n, K=1, pc_excl=excl), {0: 60, 1: 200, 2: 1200, 3: 5000}[n],
